@@ -85,6 +85,23 @@ def _mark(name, orig, fake=None):
     return wrapper
 
 
+_real_write_tty = U.write_tty
+_tty_target: list = [None]  # the harness screen that stands for the tty (None: the real function)
+
+
+def _write_tty(data: bytes):
+    """`clear_images(now=True)` writes straight to the tty: on the harness screen that is the same buffer"""
+    scr = _tty_target[0]
+    if scr is None:
+        return _real_write_tty(data)
+    scr.ti_writes.append(data.decode())
+
+
+U.write_tty = _write_tty
+
+IMAGE_LINES: dict = {}  # the library's own bytes: distinct lines of image canvases seen in this run (lexer cross-check)
+
+
 def install_markers():
     """bracket what the *base class* writes, so the order 'deletes, then urwid's rows' is observable"""
     _BASE.draw_screen = _mark("base", _base_draw)
@@ -428,6 +445,9 @@ def expected_placements(canvas, W, H, kind):
 def canvas_geometry(canv):
     """(cw, padTop, imgH, padLeft, imgW) of an image canvas, read off its lines"""
     cw = canv.size[0]
+    for line in canv._ti_lines:
+        if len(IMAGE_LINES) < 4000:
+            IMAGE_LINES.setdefault(line.decode(), None)
     pad_top = img_h = pad_left = img_w = 0
     seen = False
     for k, line in enumerate(canv._ti_lines):
@@ -549,6 +569,7 @@ def run_script(sc: dict):
     scr = Scr((W, H))
     if sc["steps"] and sc["steps"][0]["op"] == "start":
         scr._started = False
+    _tty_target[0] = scr
     term = PTerm(W, H, sc["term"])
     term.pl = [tuple(p) for p in sc.get("leftover", [])]  # images an earlier program left on the terminal
     ct = CanvTable(widget_ids)
@@ -558,7 +579,7 @@ def run_script(sc: dict):
     try:
         for st in sc["steps"]:
             op = st["op"]
-            rec = {"op": op, "exc": None}
+            rec = {"op": op, "exc": None, "resize_pending": bool(scr._resized)}
             scr.take()
             try:
                 if op in ("draw", "clear_images"):
@@ -586,7 +607,17 @@ def run_script(sc: dict):
                 elif op == "stop":
                     scr.stop()
                 elif op == "clear_images":
-                    scr.clear_images(*[ws[i] for i in st["widgets"]])
+                    scr.clear_images(*[ws[i] for i in st["widgets"]], now=bool(st.get("now", False)))
+                elif op == "sigwinch":
+                    # SIGWINCH arrives: what urwid's handler does (`_resized = True`, `screen_buf = None`,
+                    # a byte into the resize pipe); the frame drawn before the 'window resize' input is
+                    # processed is discarded by the base class
+                    urwid.display._raw_display_base.Screen._sigwinch_handler(scr)
+                elif op == "resize_done":
+                    # the input loop gets to it: `parse_input` appends 'window resize' and clears the flag;
+                    # the application re-queries the size (unchanged here) and redraws
+                    keys = scr.parse_input(None, None, [])
+                    rec["keys"] = keys[0] if keys else None
                 else:
                     raise ValueError(op)
             except Exception as e:  # noqa: BLE001 — what the real code raises is part of the observation
@@ -607,6 +638,7 @@ def run_script(sc: dict):
             rec["cdis"] = UrwidImageCanvas._ti_disguise_state
             recs.append(rec)
     finally:
+        _tty_target[0] = None
         K.query_terminal = orig_query
         KittyImage._supported = True
         ITerm2Image._supported = True
